@@ -252,7 +252,19 @@ func c06Exec(raw json.RawMessage, res *RunResult) {
 			break
 		}
 		ResetGlobals(sc.GlobalSeed ^ 0xABCDEF ^ uint64(p))
-		b := sc.Cfg.NewVMFromSeed(quiet.seeds[p])
+		var b *ds.Context
+		if p%2 == 1 {
+			// the captured state is installed in a context that has been used before: re-seeded and
+			// re-initialised through Seed + Init(), the way a host recycles a context
+			b = sc.Cfg.NewVM()
+			m.Reset()
+			DoCmd(b, Cmd{Kind: "run", Src: "[1,2,3,4].shuffle(); [5,6,7].rand() + d6 + 2d10k1"})
+			b.Seed = append([]byte(nil), quiet.seeds[p]...)
+			b.Init()
+			res.Fault("reseed_used_context")
+		} else {
+			b = sc.Cfg.NewVMFromSeed(quiet.seeds[p])
+		}
 		b.Attrs = ds.VerifDeepCopyMap(quiet.attrs[p])
 		if sc.Host.Custom {
 			hb := NewHost(sc.Host, m)
